@@ -1,2 +1,3 @@
 pub mod bits;
 pub mod natural;
+pub mod value;
